@@ -143,8 +143,6 @@ package ring
 //@ assume func Desc.TokensFor
 //@   modifies nothing
 //@   ensures same(r0, get(d.Ingesters, id).Tokens)
-//@ assume func Desc.GetTokens
-//@   modifies nothing
 //@
 //@ func InstanceDesc.GetRegisteredAt
 //@   property C08 C09
